@@ -19,7 +19,11 @@
         one `structLayout` of the class.
 
   Hypothesis `AlignedStart`: an aligned structure starts at a multiple of its alignment (property C09 states the same
-  restriction; parsing from a bytes object starts at 0).  Nested structures are read through `read` (their own `_read`);
+  restriction; parsing from a bytes object starts at 0).
+  Hypothesis `SubSizes`: a member that is read through its own `_read` (nested structure, structure array, ...) and has a
+  layout offset and a static size consumes exactly that size where the layout puts it.  The compiler assumes this when
+  it emits no seek after such a member, and so does the validator (`spos := k + size` after `.sub`); it is not a theorem
+  about `read` (an aligned structure nested in a packed one at a misaligned offset pads on the absolute position).  Nested structures are read through `read` (their own `_read`);
   for a nested structure with a compiled reader the statement applies to it separately, so the equivalence of whole
   type trees follows by induction over the nesting depth.
 -/
@@ -29,32 +33,32 @@ namespace Cstruct.Compiler.C03
 open Cstruct Cstruct.Compiler
 
 theorem c03_compiled_refines (cfg : Cfg) (al : Bool) (fs : Fields) (plan : Plan) (data : Bytes) (pos : Nat)
-    (hok : planOK cfg al fs plan = true) (hstart : AlignedStart cfg al fs pos)
+    (hok : planOK cfg al fs plan = true) (hstart : AlignedStart cfg al fs pos) (hsub : SubSizes cfg al fs data pos)
     (v : Val) (szs : List (String × Nat)) (p : Nat)
     (hc : readCompiled cfg al fs plan data pos = .ok (v, szs, p)) :
     ∃ szs', readStructWithSizes cfg al fs data pos = .ok (v, szs', p) ∧
       szs.filter (fun e => e.2 ≠ 0) = szs'.filter (fun e => e.2 ≠ 0) :=
-  compiled_refines cfg al fs plan data pos hok hstart v szs p hc
+  compiled_refines cfg al fs plan data pos hok hstart hsub v szs p hc
 
 theorem c03_plan_sound (cfg : Cfg) (al : Bool) (fs : Fields) (plan : Plan) (data : Bytes) (pos : Nat)
-    (hok : planOK cfg al fs plan = true) (hstart : AlignedStart cfg al fs pos)
+    (hok : planOK cfg al fs plan = true) (hstart : AlignedStart cfg al fs pos) (hsub : SubSizes cfg al fs data pos)
     (v₁ v₂ : Val) (s₁ s₂ : List (String × Nat)) (p₁ p₂ : Nat)
     (hc : readCompiled cfg al fs plan data pos = .ok (v₁, s₁, p₁))
     (hi : readStructWithSizes cfg al fs data pos = .ok (v₂, s₂, p₂)) :
     v₁ = v₂ ∧ p₁ = p₂ ∧ s₁.filter (fun e => e.2 ≠ 0) = s₂.filter (fun e => e.2 ≠ 0) := by
-  obtain ⟨s', h, hs⟩ := compiled_refines cfg al fs plan data pos hok hstart v₁ s₁ p₁ hc
+  obtain ⟨s', h, hs⟩ := compiled_refines cfg al fs plan data pos hok hstart hsub v₁ s₁ p₁ hc
   rw [h] at hi
   cases hi
   exact ⟨rfl, rfl, hs⟩
 
 theorem c03_interp_ok_compiled (cfg : Cfg) (al : Bool) (fs : Fields) (plan : Plan) (data : Bytes) (pos : Nat)
-    (hok : planOK cfg al fs plan = true) (hstart : AlignedStart cfg al fs pos)
+    (hok : planOK cfg al fs plan = true) (hstart : AlignedStart cfg al fs pos) (hsub : SubSizes cfg al fs data pos)
     (v : Val) (szs : List (String × Nat)) (p : Nat)
     (hi : readStructWithSizes cfg al fs data pos = .ok (v, szs, p)) :
     (∃ szs', readCompiled cfg al fs plan data pos = .ok (v, szs', p) ∧
         szs'.filter (fun e => e.2 ≠ 0) = szs.filter (fun e => e.2 ≠ 0)) ∨
       readCompiled cfg al fs plan data pos = .error .eof :=
-  interp_ok_compiled cfg al fs plan data pos hok hstart v szs p hi
+  interp_ok_compiled cfg al fs plan data pos hok hstart hsub v szs p hi
 
 theorem c03_layout_shared (cfg : Cfg) (al : Bool) (fs : Fields) (plan : Plan) (data : Bytes) (pos : Nat)
     (e : Err) (h : structLayout cfg al fs = .error e) :
@@ -62,9 +66,10 @@ theorem c03_layout_shared (cfg : Cfg) (al : Bool) (fs : Fields) (plan : Plan) (d
   simp [readCompiled, readStructWithSizes, h]
 
 -- non-vacuity: a concrete aligned structure with a bit-field run, a gap, a nested structure and an array, its real
--- plan, the validator accepts it and both readers return
+-- plan, the validator accepts it, the hypotheses hold and both readers return
 example : planOK samplecfg true sampleFields samplePlan = true ∧ AlignedStart samplecfg true sampleFields 0 ∧
+    SubSizes samplecfg true sampleFields sampleData 0 ∧
     (∃ r, readCompiled samplecfg true sampleFields samplePlan sampleData 0 = .ok r) := by
-  refine ⟨by decide +kernel, sample_aligned, ⟨_, sample_runs⟩⟩
+  refine ⟨sample_planOK, sample_aligned, sample_subsizes, ⟨_, sample_runs⟩⟩
 
 end Cstruct.Compiler.C03
